@@ -211,6 +211,67 @@ def failed_then_refit_cases(run):
                         "every pass)")
 
 
+def fitter_reuse_cases(run):
+    """one IndentationFitter object fitted, its correction factor changed,
+    fitted again: every fit equals that of a fresh fitter with the same
+    settings"""
+    from nanite import model
+    from nanite.fit import IndentationFitter
+    for mk in ("hertz_para", "hertz_cone"):
+        true = fits.default_params(mk, contact_point=8e-7, E=3000.0,
+                                   baseline=2e-11)
+        cols = fits.model_curve(mk, true, n_app=150, n_ret=70)
+        span = float(np.ptp(cols["tip position"]))
+        for rtype, rx in (("absolute", [-1.5e-6, 2e-6]),
+                          ("relative cp", [-1.5e-6, 1e-6])):
+            cfg = {"fitter-reuse": mk, "range_type": rtype}
+            key = f"fitter-reuse:{mk}:{rtype}"
+            run.case(cfg, kind="fitter-reuse")
+            try:
+                idnt = curves.make_indentation(cols)
+                p = model.models_available[mk].get_parameter_defaults()
+                p["contact_point"].set(value=9e-7)
+                kw = dict(model_key=mk, params_initial=p, range_type=rtype,
+                          range_x=rx, weight_cp=0)
+                why = None
+                with warnings.catch_warnings():
+                    warnings.simplefilter("ignore")
+                    reused = IndentationFitter(idnt, gcf_k=1.0, **kw)
+                    reused.fit()
+                    for k in (0.5, 2.0, 0.5):
+                        reused.fp["gcf_k"] = k
+                        reused.fit()
+                        fresh = IndentationFitter(
+                            curves.make_indentation(cols), gcf_k=k, **kw)
+                        fresh.fit()
+                        a, b = reused.fp, fresh.fp
+                        if bool(a.get("success")) != bool(b.get("success")):
+                            why = (f"k = {k}: success {a.get('success')} vs "
+                                   f"{b.get('success')} for a fresh fitter")
+                            break
+                        if not a.get("success"):
+                            continue
+                        pa, pb = a["params_fitted"], b["params_fitted"]
+                        dE = abs(pa["E"].value / pb["E"].value - 1)
+                        dc = abs(pa["contact_point"].value
+                                 - pb["contact_point"].value) / span
+                        if dE > 1e-6 or dc > 1e-6 or a["xmin"] != b["xmin"] \
+                                or a["xmax"] != b["xmax"]:
+                            why = (f"k = {k}: reused fitter gives E "
+                                   f"{pa['E'].value!r}, cp "
+                                   f"{pa['contact_point'].value!r}, xmin/xmax"
+                                   f" {a['xmin']!r}/{a['xmax']!r}; a fresh "
+                                   f"fitter E {pb['E'].value!r}, cp "
+                                   f"{pb['contact_point'].value!r}, "
+                                   f"{b['xmin']!r}/{b['xmax']!r}")
+                            break
+            except BaseException as e:
+                why = f"raised {type(e).__name__}: {e}"
+            if why:
+                run.failing(SITE, key, f"{cfg}: {why}",
+                            payload={"kind": "rerun"}, theorem="C11_unscale")
+
+
 def check(run):
     run.sources = common.source_digests(["src/nanite/fit.py"])
     try:
@@ -291,6 +352,7 @@ def check(run):
                "fix_cp": fix_cp, "cp_bounds": cp_bounds}
         one_case(run, cfg)
     failed_then_refit_cases(run)
+    fitter_reuse_cases(run)
     run.rule = ("metamorphic fits k vs 1 on synthetic power-law curves "
                 "(noise-free: 1e-6; noisy with weighting off: 5e-3) x three "
                 "range types x segments x initial contact points; every "
